@@ -148,6 +148,37 @@ func zzhSameBody(a, b *Document, label string) {
 	if sa != nil && sb != nil {
 		zzvAssertSame(interface{}(sa), interface{}(sb), label)
 	}
+	// what the library's own accessors report for the section: page settings, and the
+	// header/footer references of the body (wherever the section settings sit in the body)
+	pa, pb := a.GetPageSettings(), b.GetPageSettings()
+	zzvAssert(pa.Size == pb.Size && pa.Orientation == pb.Orientation, label+": page size and orientation read back the same")
+	zzvAssert(pa.CustomWidth == pb.CustomWidth && pa.CustomHeight == pb.CustomHeight, label+": custom page dimensions read back the same")
+	zzvAssert(pa.MarginTop == pb.MarginTop && pa.MarginRight == pb.MarginRight && pa.MarginBottom == pb.MarginBottom && pa.MarginLeft == pb.MarginLeft, label+": page margins read back the same")
+	zzvAssert(pa.HeaderDistance == pb.HeaderDistance && pa.FooterDistance == pb.FooterDistance && pa.GutterWidth == pb.GutterWidth, label+": header/footer distances and gutter read back the same")
+	ra, rb := zzhSectionRefs(a), zzhSectionRefs(b)
+	zzvAssert(len(ra) == len(rb), label+": the same number of header/footer references")
+	if len(ra) == len(rb) {
+		for i := range ra {
+			zzvAssert(ra[i] == rb[i], label+": header/footer references keep kind and relationship id")
+		}
+	}
+}
+
+// zzhSectionRefs lists "h|f:kind:id" for every header/footer reference of every section-settings
+// element of the body, in body order.
+func zzhSectionRefs(d *Document) []string {
+	var out []string
+	for _, e := range d.Body.Elements {
+		if sp, isSect := e.(*SectionProperties); isSect {
+			for _, r := range sp.HeaderReferences {
+				out = append(out, "h:"+r.Type+":"+r.ID)
+			}
+			for _, r := range sp.FooterReferences {
+				out = append(out, "f:"+r.Type+":"+r.ID)
+			}
+		}
+	}
+	return out
 }
 
 // Documents built through the API (solver-chosen calls, symbolic texts incl. leading/trailing
@@ -158,7 +189,20 @@ func ZZH_C03_APIDocument() {
 	d := New()
 	k := zzvBound("api_calls", 2, 3)
 	for i := 0; i < k; i++ {
-		switch zzvChoice(6) {
+		switch zzvChoice(8) {
+		case 6:
+			// page size/orientation set before content ...
+			zzvAssume(d.SetPageSize(PageSizeA3) == nil)
+			zzvAssume(d.SetPageOrientation(OrientationLandscape) == nil)
+			d.AddParagraph(zzvPrintable(6))
+		case 7:
+			// ... and a header or footer attached after it
+			kind := [...]HeaderFooterType{HeaderFooterTypeDefault, HeaderFooterTypeFirst, HeaderFooterTypeEven}[zzvChoice(3)]
+			if zzvBool() {
+				zzvAssume(d.AddHeader(kind, zzhWord()) == nil)
+			} else {
+				zzvAssume(d.AddFooter(kind, zzhWord()) == nil)
+			}
 		case 0:
 			d.AddParagraph(zzvPrintable(6))
 		case 1:
